@@ -66,5 +66,65 @@ theorem split_normalised_bytes (b : Bytes) :
     splitBytes 0x20 (utf8 (nfkd (decodeItems b))) = (splitOn 0x20 (nfkd (decodeItems b))).map utf8 :=
   ⟨(splitOn_utf8 _ (xnfkd_wf _ (decodeItems_wf b))).symm, (splitOn_utf8 _ (nfkd_wf _ (decodeItems_wf b))).symm⟩
 
+/-- every stored decomposition consists of Unicode scalar values (no surrogates) -/
+theorem table_isScalar : T.allValues (fun _ v => (unpack v).all (fun c => decide (c < 0xD800) || (decide (0xE000 ≤ c) && decide (c < 0x110000)))) decompTree = true := by
+  decide +kernel
+
+theorem decomp_scalar (c : Nat) (hc : isScalar c) : ∀ x ∈ decomp c, isScalar x := by
+  unfold decomp
+  split
+  · rename_i h
+    intro x hx
+    have := hangul_items c h.1 h.2 x hx
+    unfold isScalar; omega
+  · split
+    · rename_i p hp
+      obtain ⟨k, hk⟩ := T.find_of_allValues _ decompTree table_isScalar c p hp
+      intro x hx
+      simp only [List.all_eq_true, Bool.or_eq_true, Bool.and_eq_true, decide_eq_true_eq] at hk
+      exact hk x hx
+    · intro x hx; simp at hx; subst hx; exact hc
+
+theorem nfkd_scalar (s : Str) (h : Scalar s) : Scalar (nfkd s) := by
+  intro x hx
+  obtain ⟨c, hc, hxc⟩ := List.mem_flatMap.mp ((mem_reorderG _ x).mp hx)
+  exact decomp_scalar c (h c hc) x hxc
+
+theorem xdecomp_scalar (s : Str) (h : Scalar s) : ∀ ss, Scalar (xdecomp ss s) := by
+  induction s with
+  | nil => intro ss x hx; simp [xdecomp] at hx
+  | cons c cs ih =>
+    intro ss x hx
+    have hd := decomp_scalar c (h c (by simp))
+    have ih' := ih (fun y hy => h y (by simp [hy]))
+    simp only [xdecomp] at hx
+    split at hx
+    · rcases List.mem_cons.mp hx with rfl | hx
+      · left; decide
+      · rcases List.mem_append.mp hx with hx | hx
+        · exact hd x hx
+        · exact ih' _ x hx
+    · split at hx <;>
+      · rcases List.mem_append.mp hx with hx | hx
+        · exact hd x hx
+        · exact ih' _ x hx
+
+theorem xnfkd_scalar (s : Str) (h : Scalar s) : Scalar (xnfkd s) := by
+  intro x hx
+  exact xdecomp_scalar s h 0 x ((mem_reorderG _ x).mp hx)
+
+/-- **map lookup by string key is lookup by item list** (valid UTF-8): for a Go string that is valid
+UTF-8 (its decoding has no invalid-byte item), every token of the normalised string — with either
+normaliser — has the same bytes as a list of scalar values `w` (a list word) iff it *is* `w` -/
+theorem key_equality (b : Bytes) (hb : Scalar (decodeItems b)) (w : Str) (hw : Scalar w) :
+    (∀ t ∈ splitOn 0x20 (xnfkd (decodeItems b)), (utf8 t = utf8 w ↔ t = w)) ∧
+    (∀ t ∈ splitOn 0x20 (nfkd (decodeItems b)), (utf8 t = utf8 w ↔ t = w)) := by
+  constructor
+  · intro t ht
+    exact ⟨utf8_inj_scalar t w (scalar_of_token _ _ (xnfkd_scalar _ hb) t ht) hw, fun h => h ▸ rfl⟩
+  · intro t ht
+    exact ⟨utf8_inj_scalar t w (scalar_of_token _ _ (nfkd_scalar _ hb) t ht) hw, fun h => h ▸ rfl⟩
+
+#print axioms key_equality
 #print axioms split_normalised_bytes
 end Bip39V.Unicode
